@@ -94,6 +94,21 @@ def run(res, proof):
             res.violation('valid-document-rejected:' + o[4:], {'text': txt}, o, 'ok')
         if r.get('registry'):
             res.violation('registry-corrupted-after-read', {'text': txt}, '; '.join(r['registry'][:3]), 'all held objects remain valid singletons')
+    # ---- correspondence of the exception KIND with the Lean reader model on every corrupted document
+    lines, impl = [], []
+    for (lab, txt), r, job in zip(labels, results, jobs):
+        if job.get('pre') or lab == 'random-text':
+            continue
+        lines.append('reset'); impl.append('ok')
+        lines.append('read.doc\t%s\t\t0 0 0 0 0\t0' % sysgen.PG.hx(txt)); impl.append(r.get('line', '?'))
+    try:
+        model = [reader.canon_model_line(l) for l in core.run_driver(lines)]
+        core.compare_streams(res, 'reader.corruptions', lines, impl, model)
+        for d in res.disagreements:
+            if isinstance(d['input'], str) and d['input'].startswith('read.doc'):
+                d['text'] = bytes.fromhex(d['input'].split('\t')[1]).decode('utf-16-be', 'replace')
+    except core.DriverBroken as e:
+        proof.problem('driver', str(e))
     # shrink interpreter-level faults to a minimal set of lines; one finding per (exception kind, last statement shape)
     seen = set()
     import gc
